@@ -238,6 +238,8 @@ def stmt_text(n):
 def simple_body(fnode):
     """(params, defaults, return expr with its local single definitions inlined) for a function whose
     body is straight-line: optional docstring, plain single assignments, one final return.  Else None."""
+    if fnode.decorator_list:
+        return None          # memoised / wrapped helpers are not equal to their body
     body = list(fnode.body)
     if body and isinstance(body[0], ast.Expr) and isinstance(body[0].value, ast.Constant) and isinstance(body[0].value.value, str):
         body = body[1:]
